@@ -311,43 +311,41 @@ def r4(repo, res):
     res.ob("C17.R4", wf, wr[0] if wr else wf, bool(wr) and ast.unparse(wr[0].args[0]).endswith(".genome"),
            expected="the marker file holds the gene's genome build", found=ast.unparse(wr[0]) if wr else "no print",
            key="genome-marker-content")
-    # parameters re-applied for dumps in genotype()
-    g = repo.func("genotype::genotype")
-    res.analysed(g)
-    cg = cfg_of(g)
-    pk = g.args.kwarg.arg if g.args.kwarg else "params"
-    reapply = [x for x in find_calls(g, "update") if x.args and ast.unparse(x.args[0]) == pk]
-    stage = find_calls(g, "estimate_cn")
-    for cn_given in (None, ["1", "1"]):
-        removed = cg.prune(decide_with({kind_name(g): "dump", "cn_solution": cn_given}))
-        ok = bool(reapply) and bool(stage) and any(cg.is_reachable(cg.node_of(r), removed) and
-                                                   cg.dominates(cg.node_of(r), cg.node_of(stage[0]), removed) for r in reapply)
-        res.ob("C17.R4", g, reapply[0] if reapply else g, ok,
-               expected="for a dump the user's parameters are re-applied to the restored profile before the first stage"
-                        + (" (also when the structure is given by the user: the reader replaces the profile and resets four parameters)" if cn_given else ""),
-               found="ok" if ok else "missing", clause="with the same parameters", key="params-reapplied" + ("|cn" if cn_given else ""))
 
 
 def r5(repo, res):
     """The replay goes through the same parameter/alias handling as the original run, and the restored neutral-depth
     table supports the consumer's access pattern."""
+    from checks._genotype import GenotypeModel, Scenario, events
+
     g = repo.func("genotype::genotype")
-    cg = cfg_of(g)
-    stage = find_calls(g, "estimate_cn")
-    st = [n for n in walk_local(g) if isinstance(n, ast.Assign) and ast.unparse(n.targets[0]).endswith(".do_copy_number")
-          and isinstance(n.value, ast.Constant) and n.value.value is False]
-    mc = [n for n in walk_local(g) if isinstance(n, ast.Assign) and ast.unparse(n.targets[0]).replace('"', "'") == "params['min_coverage']"]
-    up = [x for x in find_calls(g, "update") if x.args and ast.unparse(x.args[0]) == (g.args.kwarg.arg if g.args.kwarg else "params")]
-    for prof in ("exome", "wxs", "wes"):
-        removed = cg.prune(decide_with({kind_name(g): "dump", "profile_name": prof, "cn_solution": None}))
-        ok = bool(st) and bool(stage) and cg.is_reachable(cg.node_of(st[0]), removed) and cg.dominates(cg.node_of(st[0]), cg.node_of(stage[0]), removed)
-        ok2 = bool(mc) and bool(up) and cg.is_reachable(cg.node_of(mc[0]), removed) and any(
-            cg.dominates(cg.node_of(mc[0]), cg.node_of(u), removed) for u in up if cg.is_reachable(cg.node_of(u), removed))
-        res.ob("C17.R5", g, st[0] if st else g, ok and ok2,
-               expected=f"replaying an archive with profile {prof!r} applies the same alias handling as the original run "
-                        "(copy-number calling off, min_coverage preset) before the parameters are re-applied and the first stage runs",
-               found=f"copy-number switch applied: {ok}; min_coverage preset before the re-application: {ok2}",
-               clause="as genotyping the original alignment file with the same parameters", key=f"alias-on-replay:{prof}")
+    res.analysed(g)
+    gm = GenotypeModel(repo)
+    given = {"gap": "0.2", "min_avg_coverage": "0.5", "display_format": "true", "debug_novel": "1", "debug_probe": "X"}
+    typed = {"gap": 0.2, "min_avg_coverage": 0.5, "display_format": True, "debug_novel": True, "debug_probe": "X"}
+    for prof in ("exome", "wxs", "wes", "illumina", "pgrnseq-v2"):
+        for user_cn in (None, ["1", "1"]):
+            seen = {}
+            try:
+                for kind in ("sam", "dump"):
+                    k, v, trace, _ = gm.run(Scenario(kind=kind, avg_coverage=1.0, args=dict(output_file=None, profile_name=prof, cn_solution=user_cn),
+                                                     params=dict(given)))
+                    ev_ = events(trace, "estimate_cn")
+                    seen[kind] = (k, ev_[0][5] if ev_ else None)
+            except Unfoldable as e:
+                res.err("C17.R5", f"genotype() outside the folding language: {e}")
+                return
+            (k1, a1), (k2, a2) = seen["sam"], seen["dump"]
+            keys = sorted(set(typed) | {"min_coverage"})
+            same = a1 is not None and a2 is not None and a1["do_copy_number"] == a2["do_copy_number"] and all(
+                a1["profile"].get(x) == a2["profile"].get(x) for x in keys) and all(a2["profile"].get(x) == t for x, t in typed.items())
+            res.ob("C17.R5", g, g, k1 == k2 == "return" and same,
+                   expected=f"profile {prof!r}{', structure given' if user_cn else ''}: the replay runs the stages with the same copy-number switch, the same "
+                            "alias presets and the same (re-applied) parameters as the original run, although the reader restores the pickled profile and resets four parameters",
+                   found="same" if k1 == k2 == "return" and same else
+                         f"original: {k1} {None if a1 is None else dict(cn=a1['do_copy_number'], **{x: a1['profile'].get(x) for x in keys})}; "
+                         f"replay: {k2} {None if a2 is None else dict(cn=a2['do_copy_number'], **{x: a2['profile'].get(x) for x in keys})}",
+                   clause="as genotyping the original alignment file with the same parameters", key=f"alias-on-replay:{prof}{'|cn' if user_cn else ''}")
     # neutral-depth table: writer -> reader -> consumer
     wf, wc, w = writer_tuple(repo)
     rf, rn, r = reader_tuple(repo)
@@ -596,7 +594,7 @@ MUTANTS = [
     dict(name="R7 genome marker from the detected build (seeded C17_b1 shape)", module="sam", expect="C17.R7",
          edits=[("self.kind, _ = detect_genome(path)\n            self.genome = gene.genome", "self.kind, self.genome = detect_genome(path)"),
                 ("print(self.gene.genome, file=fd)", "print(self.genome, file=fd)")]),
-    dict(name="R4 re-application skipped for a user-given structure (seeded C17_b3 shape)", module="genotype", expect=["C17.R4", "C18.R1"],
+    dict(name="R4 re-application skipped for a user-given structure (seeded C17_b3 shape)", module="genotype", expect=["C17.R5", "C18.R1"],
          old='    if kind == "dump":\n        profile.update(params)', new='    if kind == "dump" and not cn_solution:\n        profile.update(params)'),
     dict(name="benign: dump written before the coverage is built", module="sam", kind="benign",
          old="""            self._make_coverage(norm, muts)
@@ -631,7 +629,7 @@ MUTANTS = [
          old='self._dump_alignments(f"{debug}.{gene.name}", norm, muts)', new='self._dump_alignments(f"{debug}", norm, muts)'),
     dict(name="R4 reader matches any gene's dump", module="sam", expect="C17.R4",
          old='if i.endswith(f".{self.gene.name}.dump")]', new='if i.endswith(".dump")]'),
-    dict(name="R4 params not re-applied for dumps", module="genotype", expect="C17.R4",
+    dict(name="R4 params not re-applied for dumps", module="genotype", expect="C17.R5",
          old='    if kind == "dump":\n        profile.update(params)', new='    if kind == "dump":\n        pass'),
     dict(name="R4 dump also written when replaying a dump", module="sam", expect="C17.R4",
          old='            if self.kind == "sam" and debug:', new='            if debug:'),
